@@ -258,8 +258,9 @@ Proof. intros H a. rewrite !cnf_holds_sat_clauses, !evalres_residual, H. reflexi
    [topdown_hg] is topdown_h with one extra boolean threaded through: it is cleared when a cache
    hit returns a diagram that tests a variable which is set in the current model ("stale hit").
    Erasing the flag gives topdown_h (topdown_hg_erase).  Denotation and the false constant do not
-   depend on it; "no path decides a variable twice" is proved for runs whose flag stays true
-   (in particular every run without the cache). *)
+   depend on it; "no path decides a variable twice" is proved for runs whose flag stays true:
+   without the cache it never changes (nocache_flag), with the cache it is never cleared either
+   (topdown_res / cached_flag_true below: results test residual variables only). *)
 Definition fresh_hit (s : solver) (d : bdd) : bool :=
   forallb (fun v => negb (sat_is_set s (N.to_nat v))) (support d).
 
@@ -452,7 +453,7 @@ Lemma wl_push_lens w l ci :
   length (wpos (wl_push w l ci)) = length (wpos w) /\ length (wneg (wl_push w l ci)) = length (wneg w).
 Proof. unfold wl_push. apply wl_put_lengths. Qed.
 
-Lemma quiet_loop cls m a : pm_is_set m (lvar a) = true ->
+Lemma quiet_loop (cls : list clause) (m : pmodel) (a : lit) : pm_is_set m (lvar a) = true ->
   forall fuel w idx w' r,
   lvar a < length (wpos w) -> lvar a < length (wneg w) ->
   Forall (fun ci => clause_sat m (nth ci cls []) = true \/ 2 <= length (remaining m (nth ci cls [])))
@@ -466,12 +467,14 @@ Proof.
   set (ci := nth idx (wl_get w (lneg a)) 0) in *.
   assert (HPci : clause_sat m (nth ci cls []) = true \/ 2 <= length (remaining m (nth ci cls []))).
   { rewrite Forall_forall in HP. apply HP. apply nth_In. exact Eidx. }
-  destruct (clause_sat m (nth ci cls [])) eqn:Esat; [eapply IH; eauto|].
+  set (c := nth ci cls []) in *.
+  destruct (clause_sat m c) eqn:Esat.
+  { eapply IH; [exact L1|exact L2|exact HP|exact H]. }
   destruct HPci as [Hx|Hlen]; [congruence|].
-  destruct (remaining m (nth ci cls [])) as [|u [|second rest]] eqn:Erem; simpl in Hlen; try lia.
+  destruct (remaining m c) as [|u [|second rest]] eqn:Erem; simpl in Hlen; try lia.
   set (nl := if mem_nat ci (wl_get w u) then second else u) in *.
   assert (Hnl : nl <> lneg a).
-  { assert (Hin : In nl (remaining m (nth ci cls []))).
+  { assert (Hin : In nl (remaining m c)).
     { rewrite Erem. unfold nl. destruct (mem_nat ci (wl_get w u)); simpl; auto. }
     apply remaining_in in Hin. destruct Hin as [_ Hu]. intros ->. unfold lit_unset in Hu.
     rewrite lvar_lneg, Hset in Hu. discriminate. }
@@ -483,6 +486,47 @@ Proof.
     rewrite Forall_forall in *. intros x Hx. apply HP.
     destruct (swap_remove_spec (wl_get w (lneg a)) idx Eidx) as [Hp _].
     eapply Permutation_in; [exact Hp|right; exact Hx].
+Qed.
+
+Lemma wc_sat_ext m m' (wc : wclause) :
+  (forall z, In z wc -> pm_get m' (lvar (fst z)) = pm_get m (lvar (fst z))) -> wc_sat m' wc = wc_sat m wc.
+Proof.
+  unfold wc_sat. induction wc as [|z t IH]; intros H; [reflexivity|]. cbn [existsb]. f_equal.
+  - unfold lit_true. rewrite (H z (or_introl eq_refl)). reflexivity.
+  - apply IH. intros z' Hz'. apply H. right. exact Hz'.
+Qed.
+
+Lemma conjoin_nil d : conjoin_implied [] d = d.
+Proof. unfold conjoin_implied. destruct d; reflexivity. Qed.
+
+Lemma implied_set_nil m y pol : pm_get m y = None -> implied_of (pm_set m y pol) m y = [].
+Proof.
+  intros Hun. unfold implied_of. destruct (filter _ _) as [|l t] eqn:E; [reflexivity|]. exfalso.
+  assert (Hin : In l (l :: t)) by (left; reflexivity). rewrite <- E in Hin.
+  apply filter_In in Hin. destruct Hin as [Hd Hne]. apply negb_true_iff, Nat.eqb_neq in Hne.
+  apply in_pm_difference in Hd. destruct Hd as [T1 T2]. unfold lit_true in *.
+  rewrite pm_get_set_other in T1 by congruence. rewrite T1 in T2. discriminate.
+Qed.
+
+(* the second arm replays the first arm's skips and finds what the first arm stored *)
+Lemma replay order : forall fuel L s c fl r s' c' fl',
+  topdown_hg order true fuel s L c fl = Some (r, s', c', fl') -> sat_is_sat s = false ->
+  forall sb flb, s_nvars sb = s_nvars s -> sat_is_sat sb = false -> sat_cur_hash sb = sat_cur_hash s ->
+  (forall l, L <= l -> l < s_nvars s -> sat_is_set sb (nth l order 0) = sat_is_set s (nth l order 0)) ->
+  exists flb', topdown_hg order true fuel sb L c' flb = Some (r, sb, c', flb').
+Proof.
+  induction fuel as [|f IH]; intros L s c fl r s' c' fl' H Hsat sb flb Hnv Hsatb Hh Hset; [discriminate|].
+  cbn [topdown_hg] in *. rewrite Hsat in H. rewrite Hsatb, Hnv. rewrite orb_false_r in *.
+  destruct (Nat.leb (s_nvars s) L) eqn:El.
+  - inversion H; subst. eexists. reflexivity.
+  - apply Nat.leb_gt in El. unfold var_at_level in *. rewrite (Hset L (le_n _) El).
+    destruct (sat_is_set s (nth L order 0)).
+    + eapply IH; eauto. intros l Hl. apply Hset. lia.
+    + rewrite Hh. destruct (cache_get c (sat_cur_hash s)) as [d|] eqn:Eg.
+      * inversion H; subst. rewrite Eg. eexists. reflexivity.
+      * destruct (branch_g _ s c fl (nth L order 0) true) as [[[[hi s1] c1] fl1]|]; [|discriminate].
+        destruct (branch_g _ s1 c1 fl1 (nth L order 0) false) as [[[[lo s2] c2] fl2]|]; [|discriminate].
+        inversion H; subst. cbn [cache_insert cache_get]. rewrite N.eqb_refl. eexists. reflexivity.
 Qed.
 
 Section TD.
@@ -875,6 +919,409 @@ Proof.
     destruct (branch_g _ s1 c1 fl1 v false) as [[[[lo s2] c2] fl2]|]; [discriminate|congruence].
 Qed.
 
+(* ================= freeness with the cache: results test residual variables only ================= *)
+Hypothesis Hinj : forall l l', l < nvars -> l' < nvars -> nth l order 0 = nth l' order 0 -> l = l'.
+
+Lemma fix_inv_reach s ds : reaches false s0 s ds -> fix_inv nvars cls s ds.
+Proof.
+  destruct (sat_new_fix_inv nvars cls Hrange Hadj s0 Hnew) as [H0 Hne].
+  revert s ds. apply run_track_ind.
+  - exact H0.
+  - intros s ds a s' r [Hc [Hnv [HS [Hf Hlen]]]] Hd Hres.
+    destruct (sat_decide_push _ _ _ _ _ Hd Hres) as [w' [nm [Hl [Ed [-> _]]]]].
+    destruct (frames_top _ _ _ _ Hf) as [t [rest [Est [HVt [Hut Hlt]]]]].
+    assert (Etop : top_state s = t) by (unfold top_state; rewrite Est; reflexivity).
+    rewrite Hc, Hnv, Etop in Ed. rewrite Hnv in Hl.
+    destruct (decide_inv nvars cls _ _ _ _ _ _ Hrange Hadj HS Hlt Hl Ed) as [HS' [Hlow Hcur]].
+    destruct (Hcur nm eq_refl HVt) as [HV' [Hlen' [Hle' _]]].
+    split; [exact Hc|split; [exact Hnv|split; [exact HS'|split; [|simpl; lia]]]]. simpl. rewrite Est.
+    assert (Hf' : frames_ok nvars cls w' (t :: rest)).
+    { rewrite <- Est. apply (frames_transfer nvars cls (s_w s) w' _ Hf (ss_model t)); [rewrite Est; apply pm_le_refl|exact Hlow]. }
+    inversion Hf' as [st0 bot Hg|st st2 rest' Hg Hle2 Hf2]; subst.
+    + apply FO_push; [|exact Hle'|exact Hf']. split; [exact HV'|split; [|exact Hlen']].
+      intros l Hl'. eapply lit_true_le; [exact Hle'|apply Hut; exact Hl'].
+    + apply FO_push; [|exact Hle'|exact Hf']. split; [exact HV'|split; [|exact Hlen']].
+      intros l Hl'. eapply lit_true_le; [exact Hle'|apply Hut; exact Hl'].
+  - intros s ds a s' [Hc [Hnv [HS [Hf Hlen]]]] Hd.
+    destruct (sat_decide_unsat _ _ _ _ Hd) as [w' [Hl [Ed ->]]].
+    destruct (frames_top _ _ _ _ Hf) as [t [rest [Est [HVt [Hut Hlt]]]]].
+    assert (Etop : top_state s = t) by (unfold top_state; rewrite Est; reflexivity).
+    rewrite Hc, Hnv, Etop in Ed. rewrite Hnv in Hl.
+    destruct (decide_inv nvars cls _ _ _ _ _ _ Hrange Hadj HS Hlt Hl Ed) as [HS' [Hlow _]].
+    split; [exact Hc|split; [exact Hnv|split; [exact HS'|split; [|exact Hlen]]]]. simpl.
+    apply (frames_transfer nvars cls (s_w s) w' _ Hf (ss_model t)); [rewrite Est; apply pm_le_refl|exact Hlow].
+  - intros s d ds [Hc [Hnv [HS [Hf Hlen]]]].
+    split; [exact Hc|split; [exact Hnv|split; [exact HS|]]]. simpl.
+    inversion Hf as [st0 bot Hg Est|st st2 rest Hg Hle Hf2 Est]; rewrite <- Est in Hlen; simpl in Hlen |- *.
+    + lia.
+    + split; [exact Hf2|lia].
+Qed.
+
+Lemma no_empty_clause : ~ In [] cls.
+Proof. exact (proj2 (sat_new_fix_inv nvars cls Hrange Hadj s0 Hnew)). Qed.
+
+(* deciding a variable outside the residual formula propagates nothing *)
+Lemma quiet_up s ds y pol w' r :
+  reaches false s0 s ds -> y < nvars -> pm_get (model s) y = None -> inresb cls (model s) y = false ->
+  up_decide false cls (up_fuel nvars cls) (s_w s) (model s) (y, pol) = URes w' r ->
+  r = Some (pm_set (model s) y pol).
+Proof.
+  intros Hr Hy Hun Hq H. pose proof (reach_facts s ds Hr) as F.
+  destruct (fix_inv_reach s ds Hr) as [_ [_ [HS [Hf _]]]].
+  destruct (frames_top _ _ _ _ Hf) as [t [rest [Est [_ [Hut _]]]]].
+  assert (Etop : top_state s = t) by (unfold top_state; rewrite Est; reflexivity).
+  rewrite <- Etop in Hut.
+  unfold up_fuel in H. rewrite up_decide_S in H. cbn [lvar lpol fst snd] in H. rewrite Hun in H.
+  set (m' := pm_set (model s) y pol) in *.
+  assert (Hle : pm_le (model s) m') by (apply pm_le_set; exact Hun).
+  eapply (quiet_loop cls m' (y, pol)); [| | | |exact H].
+  - unfold pm_is_set, m'. cbn [lvar fst]. rewrite pm_get_set_same by (rewrite (f_len s F); exact Hy). reflexivity.
+  - cbn [lvar fst]. rewrite (S_len_pos _ _ _ HS). exact Hy.
+  - cbn [lvar fst]. rewrite (S_len_neg _ _ _ HS). exact Hy.
+  - apply Forall_forall. intros ci Hci.
+    assert (Hlt : ci < length cls).
+    { pose proof (wl_get_ok _ _ (lneg (y, pol)) (f_w s F)) as Hall. eapply Forall_forall in Hall; eauto. }
+    assert (Hc : In (nth ci cls []) cls) by (apply nth_In_clause; exact Hlt).
+    destruct (Nat.le_gt_cases 2 (length (nth ci cls []))) as [Hlen2|Hshort].
+    + destruct (S_two _ _ _ HS ci Hlt Hlen2) as [x1 [x2 [_ [Hx1 [Hx2 Hiff]]]]].
+      assert (Hin : In (lneg (y, pol)) (nth ci cls [])).
+      { apply Hiff in Hci. destruct Hci as [->| ->]; assumption. }
+      set (c := nth ci cls []) in *.
+      destruct (tautological c) eqn:Et; [apply taut_two; exact Et|].
+      destruct (clause_sat (model s) c) eqn:Es; [left; eapply clause_sat_le; eauto|].
+      exfalso. assert (Hx : inresb cls (model s) y = true).
+      { apply inresb_spec. exists c. split; [exact Hc|split; [exact Es|split; [exact Et|]]].
+        exists (lneg (y, pol)). split; [exact Hin|reflexivity]. }
+      congruence.
+    + destruct (nth ci cls []) as [|l0 [|l1 tl0]] eqn:Ec; [| |simpl in Hshort; lia].
+      * exfalso. apply no_empty_clause. exact Hc.
+      * left. apply existsb_exists. exists l0. split; [left; reflexivity|].
+        eapply lit_true_le; [exact Hle|]. apply Hut. exact Hc.
+Qed.
+
+(* the weighted, normalised clauses and the stored ones *)
+Lemma sat_clause_origin wc : In wc (sat_clauses_of cls) ->
+  exists c0, In c0 cls /\ map fst wc = norm_clause c0 /\ tautological c0 = false.
+Proof.
+  unfold sat_clauses_of. intros H.
+  assert (HL : In (map fst wc) (filter (fun c => negb (tautological c)) (map norm_clause cls))).
+  { rewrite <- (weigh_fst _ 2%N). apply in_map. exact H. }
+  apply filter_In in HL. destruct HL as [Hin Ht]. apply in_map_iff in Hin. destruct Hin as [c0 [Hn Hc]].
+  exists c0. split; [exact Hc|split; [symmetry; exact Hn|]].
+  rewrite <- Hn, tautological_norm in Ht. apply negb_true_iff in Ht. exact Ht.
+Qed.
+
+Lemma sat_clause_of c0 : In c0 cls -> tautological c0 = false ->
+  exists wc, In wc (sat_clauses_of cls) /\ map fst wc = norm_clause c0.
+Proof.
+  intros Hc Ht. unfold sat_clauses_of.
+  assert (HL : In (norm_clause c0) (filter (fun c => negb (tautological c)) (map norm_clause cls))).
+  { apply filter_In. split; [apply in_map; exact Hc|]. rewrite tautological_norm, Ht. reflexivity. }
+  rewrite <- (weigh_fst _ 2%N) in HL. apply in_map_iff in HL. destruct HL as [wc [Hfst Hwc]]. exists wc. auto.
+Qed.
+
+Definition resv (R : list (option clause)) (v : nat) : Prop :=
+  exists c, In (Some c) R /\ exists l, In l c /\ lvar l = v.
+
+Lemma inres_resv m v : inresb cls m v = true -> pm_get m v = None ->
+  resv (residual (sat_clauses_of cls) m) v.
+Proof.
+  intros H Hun. apply inresb_spec in H. destruct H as [c0 [Hc [Hs [Ht [l [Hl Hv]]]]]].
+  destruct (sat_clause_of c0 Hc Ht) as [wc [Hwc Hfst]].
+  exists (remaining m (norm_clause c0)). split.
+  - unfold residual. apply in_map_iff. exists wc. split; [|exact Hwc].
+    rewrite wc_sat_clause_sat, Hfst, clause_sat_norm, Hs. reflexivity.
+  - exists l. split; [|exact Hv]. apply filter_In. split; [apply in_norm_clause; exact Hl|].
+    unfold lit_unset, pm_is_set. rewrite Hv, Hun. reflexivity.
+Qed.
+
+Lemma resv_inres m v : resv (residual (sat_clauses_of cls) m) v ->
+  inresb cls m v = true /\ pm_get m v = None.
+Proof.
+  intros [c [Hc [l [Hl Hv]]]]. unfold residual in Hc. apply in_map_iff in Hc. destruct Hc as [wc [E Hwc]].
+  destruct (wc_sat m wc) eqn:Es; [discriminate|]. inversion E; subst c. clear E.
+  destruct (sat_clause_origin wc Hwc) as [c0 [Hc0 [Hfst Ht]]].
+  apply remaining_in in Hl. destruct Hl as [Hl Hu]. rewrite Hfst in Hl.
+  rewrite wc_sat_clause_sat, Hfst, clause_sat_norm in Es. split.
+  - apply inresb_spec. exists c0. split; [exact Hc0|split; [exact Es|split; [exact Ht|]]]. exists l. split; [|exact Hv].
+    exact (proj1 (in_norm_clause l c0) Hl).
+  - unfold lit_unset in Hu. apply negb_true_iff in Hu. rewrite Hv in Hu. apply pm_is_set_get. exact Hu.
+Qed.
+
+(* a quiet decide changes neither the removed occurrences (hash) nor the satisfied flag *)
+Lemma quiet_sel m y pol : pm_get m y = None -> inresb cls m y = false ->
+  sel (sat_clauses_of cls) (pm_set m y pol) = sel (sat_clauses_of cls) m.
+Proof.
+  intros Hun Hq. unfold sel, occs. f_equal. f_equal. apply map_ext_in. intros wc Hwc.
+  assert (Hle : pm_le m (pm_set m y pol)) by (apply pm_le_set; exact Hun).
+  destruct (wc_sat m wc) eqn:Es.
+  - assert (Es' : wc_sat (pm_set m y pol) wc = true).
+    { rewrite wc_sat_clause_sat in *. eapply clause_sat_le; eauto. }
+    apply map_ext_in. intros x _. unfold removed. rewrite Es, Es'. reflexivity.
+  - assert (Hno : forall z, In z wc -> lvar (fst z) <> y).
+    { intros z Hz Hzy. destruct (sat_clause_origin wc Hwc) as [c0 [Hc0 [Hfst Ht]]].
+      assert (Hx : inresb cls m y = true).
+      { apply inresb_spec. exists c0. split; [exact Hc0|split; [|split; [exact Ht|]]].
+        - rewrite <- clause_sat_norm, <- Hfst, <- wc_sat_clause_sat. exact Es.
+        - exists (fst z). split; [|exact Hzy]. apply (proj1 (in_norm_clause _ _)). rewrite <- Hfst. apply in_map. exact Hz. }
+      congruence. }
+    assert (Hget : forall z, In z wc -> pm_get (pm_set m y pol) (lvar (fst z)) = pm_get m (lvar (fst z))).
+    { intros z Hz. apply pm_get_set_other. intros E. apply (Hno z Hz). symmetry. exact E. }
+    assert (Es' : wc_sat (pm_set m y pol) wc = false) by (rewrite (wc_sat_ext _ _ _ Hget); exact Es).
+    apply map_ext_in. intros x Hx. unfold removed. rewrite Es, Es'. cbn [orb]. f_equal.
+    unfold lit_false. rewrite (Hget x Hx). reflexivity.
+Qed.
+
+Lemma is_sat_stack s s' : s_stack s' = s_stack s -> s_clauses s' = s_clauses s -> sat_is_sat s' = sat_is_sat s.
+Proof. unfold sat_is_sat, top_state. intros -> ->. reflexivity. Qed.
+
+Lemma quiet_decide s ds y pol s1 r :
+  reaches false s0 s ds -> y < nvars -> pm_get (model s) y = None -> inresb cls (model s) y = false ->
+  sat_is_sat s = false -> sat_decide false s (y, pol) = (s1, r) ->
+  r = DUnknown /\ model s1 = pm_set (model s) y pol /\ sat_cur_hash s1 = sat_cur_hash s /\
+  sat_is_sat s1 = false /\ s_nvars s1 = s_nvars s.
+Proof.
+  intros Hr Hy Hun Hq Hns Hd. pose proof (reach_facts s ds Hr) as F.
+  pose proof (decide_step s ds y pol s1 r Hr Hy Hun Hd) as Hstep.
+  assert (Push : r = DSAT \/ r = DUnknown ->
+            r = DUnknown /\ model s1 = pm_set (model s) y pol /\ sat_cur_hash s1 = sat_cur_hash s /\
+            sat_is_sat s1 = false /\ s_nvars s1 = s_nvars s).
+  { intros Hres. destruct (sat_decide_push _ _ _ _ _ Hd Hres) as [w' [nm [_ [Ed [Es1 _]]]]].
+    rewrite (f_cnf s F), (f_nv s F) in Ed.
+    pose proof (quiet_up s ds y pol w' _ Hr Hy Hun Hq Ed) as Enm. injection Enm as Enm.
+    assert (Hm1 : model s1 = pm_set (model s) y pol) by (rewrite Es1; cbn [top_state s_stack ss_model]; exact Enm).
+    assert (Hr1 : reaches false s0 s1 ((y, pol) :: ds)).
+    { eapply reaches_step with (o := Decide (y, pol)); [exact Hr|]. simpl. rewrite Hd. destruct Hres; subst; reflexivity. }
+    assert (Hsat1 : sat_is_sat s1 = false).
+    { destruct (sat_is_sat s1) eqn:E1; [exfalso|reflexivity].
+      apply (sat_flag_iff _ _ _ _ _ _ Hnew Hr1) in E1.
+      assert (Hall : all_nontaut_sat cls (model s)).
+      { intros c Hc Ht. destruct (clause_sat (model s) c) eqn:Es; [reflexivity|exfalso].
+        specialize (E1 c Hc Ht). rewrite Hm1 in E1. apply existsb_exists in E1. destruct E1 as [l [Hl Hlt]].
+        destruct (Nat.eq_dec (lvar l) y) as [Ey|Ney].
+        - assert (Hx : inresb cls (model s) y = true).
+          { apply inresb_spec. exists c. split; [exact Hc|split; [exact Es|split; [exact Ht|]]]. exists l. auto. }
+          congruence.
+        - unfold lit_true in Hlt. rewrite pm_get_set_other in Hlt by congruence.
+          assert (Hs : clause_sat (model s) c = true) by (apply existsb_exists; exists l; split; [exact Hl|exact Hlt]).
+          congruence. }
+      apply (sat_flag_iff _ _ _ _ _ _ Hnew Hr) in Hall. congruence. }
+    split; [|split; [exact Hm1|split; [|split; [exact Hsat1|rewrite Es1; reflexivity]]]].
+    - pose proof (decide_sat_iff_is_sat _ _ _ _ _ Hd Hres) as Hiff.
+      destruct Hres as [->| ->]; [|reflexivity]. rewrite (proj1 Hiff eq_refl) in Hsat1. discriminate.
+    - destruct (flag_inv_reach _ _ _ _ _ _ Hnew reach_s0) as [_ Hcl0].
+      apply (equal_sel_equal_hash false cls nvars s0 s1 _ s _ Hnew Hr1 Hr). rewrite Hcl0, Hm1.
+      apply quiet_sel; assumption. }
+  destruct r; try contradiction.
+  - apply Push. auto.
+  - exfalso. destruct (sat_decide_unsat _ _ _ _ Hd) as [w' [_ [Ed _]]].
+    rewrite (f_cnf s F), (f_nv s F) in Ed.
+    pose proof (quiet_up s ds y pol w' _ Hr Hy Hun Hq Ed) as Enm. discriminate.
+  - apply Push. auto.
+Qed.
+
+Lemma implied_in_res s ds v pol s1 r :
+  reaches false s0 s ds -> v < nvars -> pm_get (model s) v = None ->
+  sat_decide false s (v, pol) = (s1, r) -> r = DSAT \/ r = DUnknown ->
+  forall l, In l (new_assgn s1 v) ->
+    inresb cls (model s) (lvar l) = true /\ pm_get (model s) (lvar l) = None.
+Proof.
+  intros Hr Hv Hun Hd Hres l Hl. pose proof (reach_facts s ds Hr) as F.
+  pose proof (decide_step s ds v pol s1 r Hr Hv Hun Hd) as Hstep.
+  assert (Hs : pm_le (model s) (model s1) /\ new_assgn s1 v = implied_of (model s1) (model s) v)
+    by (destruct Hres as [-> | ->]; destruct Hstep as [_ [_ [Hle [_ [Hna _]]]]]; auto).
+  destruct Hs as [Hle Hna]. rewrite Hna in Hl.
+  destruct (implied_props _ _ _ _ Hle Hl) as [G1 [G2 G3]]. split; [|exact G2].
+  destruct (sat_decide_push _ _ _ _ _ Hd Hres) as [w' [nm [_ [Ed [Es1 _]]]]].
+  rewrite (f_cnf s F), (f_nv s F) in Ed.
+  assert (Hm1 : model s1 = nm) by (rewrite Es1; reflexivity).
+  destruct (proj1 (up_new_in_res cls _) _ _ _ _ _ (f_w s F) Ed (lvar l) G2) as [E|E].
+  - rewrite <- Hm1, G1. discriminate.
+  - cbn [lvar fst] in E. contradiction.
+  - exact E.
+Qed.
+
+Definition sup_res (m : pmodel) (d : bdd) : Prop :=
+  forall u, In u (support d) -> inresb cls m (N.to_nat u) = true /\ pm_get m (N.to_nat u) = None.
+Definition entry_res (e : N * bdd) : Prop :=
+  exists se dse, reaches false s0 se dse /\ sat_cur_hash se = fst e /\ sup_res (model se) (snd e).
+Definition cache_res (c : cache) : Prop := Forall entry_res c.
+
+Lemma sup_res_transfer m1 m2 d :
+  residual (sat_clauses_of cls) m1 = residual (sat_clauses_of cls) m2 -> sup_res m1 d -> sup_res m2 d.
+Proof.
+  intros E H u Hu. destruct (H u Hu) as [A B]. apply resv_inres. rewrite <- E. apply inres_resv; assumption.
+Qed.
+
+Lemma sup_res_anti m m1 d : pm_le m m1 -> sup_res m1 d -> sup_res m d.
+Proof.
+  intros Hle H u Hu. destruct (H u Hu) as [A B]. split; [eapply inresb_anti; eauto|].
+  destruct (pm_get m (N.to_nat u)) eqn:E; [rewrite (Hle _ _ E) in B; discriminate|reflexivity].
+Qed.
+
+Lemma sup_res_conjoin m lits sub :
+  (forall l, In l lits -> inresb cls m (lvar l) = true /\ pm_get m (lvar l) = None) ->
+  sup_res m sub -> sup_res m (conjoin_implied lits sub).
+Proof.
+  intros Hl Hs u Hu. apply support_conjoin_implied in Hu. destruct Hu as [Hu|Hu]; [|apply Hs; exact Hu].
+  apply in_map_iff in Hu. destruct Hu as [l [<- Hin]]. unfold nvar. rewrite Nat2N.id. apply Hl. exact Hin.
+Qed.
+
+Definition rconcl (s : solver) (fl : bool) (res : gres) : Prop :=
+  let '(r, s', c', fl') := res in fl' = fl /\ cache_res c' /\ sup_res (model s) r.
+Definition rec_res (level : nat) (rec : solver -> cache -> bool -> option gres) : Prop :=
+  forall s c fl ds res, reaches false s0 s ds -> cache_ok fl c -> cache_res c -> levels_set (model s) level ->
+    rec s c fl = Some res -> rconcl s fl res.
+
+Lemma branch_res level rec : rec_ok (S level) rec -> rec_res (S level) rec ->
+  forall s c fl ds v pol res, reaches false s0 s ds -> cache_ok fl c -> cache_res c ->
+    levels_set (model s) level -> v = nth level order 0 -> v < nvars -> pm_get (model s) v = None ->
+    branch_g rec s c fl v pol = Some res -> rconcl s fl res.
+Proof.
+  intros Hrec Hres s c fl ds v pol res Hr Hc Hcr Hlev Ev Hv Hun Hb. unfold branch_g in Hb.
+  destruct (sat_decide false s (v, pol)) as [s1 r] eqn:Ed.
+  pose proof (decide_step s ds v pol s1 r Hr Hv Hun Ed) as Hstep.
+  destruct r; try discriminate.
+  - inversion Hb; subst res. unfold rconcl. split; [reflexivity|split; [exact Hcr|]].
+    apply sup_res_conjoin; [apply (implied_in_res s ds v pol s1 DSAT Hr Hv Hun Ed); auto|intros u []].
+  - inversion Hb; subst res. unfold rconcl. split; [reflexivity|split; [exact Hcr|intros u []]].
+  - destruct Hstep as [Hr1 [Htl [Hle [Hset [Hna _]]]]].
+    destruct (rec s1 c fl) as [[[[sub s2] c2] fl2]|] eqn:Erec; [|discriminate].
+    inversion Hb; subst res. clear Hb.
+    assert (Hlev1 : levels_set (model s1) (S level)).
+    { intros l Hl. destruct (Nat.eq_dec l level) as [->|Hne].
+      - rewrite <- Ev. unfold pm_is_set. rewrite Hset. reflexivity.
+      - eapply pm_is_set_le; [exact Hle|]. apply Hlev. lia. }
+    pose proof (Hrec s1 c fl _ _ Hr1 Hc Hlev1 Erec) as Hsub. unfold concl in Hsub. destruct Hsub as [_ [Hst2 _]].
+    pose proof (Hres s1 c fl _ _ Hr1 Hc Hcr Hlev1 Erec) as Hsr. unfold rconcl in Hsr.
+    destruct Hsr as [Hfl [Hcr2 Hsup]].
+    assert (Ena : new_assgn s2 v = new_assgn s1 v).
+    { unfold new_assgn, sat_difference_iter. rewrite Hst2. reflexivity. }
+    unfold rconcl. split; [exact Hfl|split; [exact Hcr2|]]. rewrite Ena.
+    apply sup_res_conjoin; [apply (implied_in_res s ds v pol s1 DUnknown Hr Hv Hun Ed); auto|].
+    eapply sup_res_anti; eauto.
+Qed.
+
+Lemma quiet_arms (Huc : use_cache = true) f level s c fl ds v hi s1 c1 fl1 lo s2 c2 fl2 :
+  reaches false s0 s ds -> cache_ok fl c -> levels_set (model s) level -> v = nth level order 0 ->
+  v < nvars -> level < nvars -> pm_get (model s) v = None -> sat_is_sat s = false ->
+  inresb cls (model s) v = false ->
+  branch_g (fun s' c' fl' => topdown_hg order use_cache f s' (S level) c' fl') s c fl v true
+    = Some (hi, s1, c1, fl1) ->
+  branch_g (fun s' c' fl' => topdown_hg order use_cache f s' (S level) c' fl') s1 c1 fl1 v false
+    = Some (lo, s2, c2, fl2) ->
+  hi = lo.
+Proof.
+  intros Hr Hc Hlev Ev Hv Hlv Hun Hns Hq Eb1 Eb2. pose proof (reach_facts s ds Hr) as F.
+  unfold branch_g in Eb1. destruct (sat_decide false s (v, true)) as [sa ra] eqn:Eda.
+  destruct (quiet_decide s ds v true sa ra Hr Hv Hun Hq Hns Eda) as [-> [Hma [Hha [Hnsa Hnva]]]].
+  pose proof (decide_step s ds v true sa DUnknown Hr Hv Hun Eda) as [Hra [Htla [Hlea [Hseta [Hnaa _]]]]].
+  destruct (topdown_hg order use_cache f sa (S level) c fl) as [[[[sub sa2] ca] fla]|] eqn:Ereca; [|discriminate].
+  inversion Eb1; subst hi s1 c1 fl1. clear Eb1.
+  assert (Hlev1 : levels_set (model sa) (S level)).
+  { intros l Hl. destruct (Nat.eq_dec l level) as [->|Hne].
+    - rewrite <- Ev. unfold pm_is_set. rewrite Hseta. reflexivity.
+    - eapply pm_is_set_le; [exact Hlea|]. apply Hlev. lia. }
+  pose proof (topdown_hg_ok f (S level) sa c fl _ _ Hra Hc Hlev1 Ereca) as Ha. unfold concl in Ha.
+  destruct Ha as [Hra2 [Hsta2 _]].
+  assert (Ena : new_assgn sa2 v = []).
+  { assert (E : new_assgn sa2 v = new_assgn sa v) by (unfold new_assgn, sat_difference_iter; rewrite Hsta2; reflexivity).
+    rewrite E, Hnaa, Hma. apply implied_set_nil. exact Hun. }
+  rewrite Ena, conjoin_nil.
+  assert (Hrp : reaches false s0 (sat_pop sa2) ds) by (apply reach_pop with (d := (v, true)); exact Hra2).
+  assert (Hstp : s_stack (sat_pop sa2) = s_stack s) by (cbn [sat_pop s_stack]; rewrite Hsta2; exact Htla).
+  pose proof (top_state_stack _ _ Hstp) as Etp.
+  pose proof (reach_facts _ _ Hrp) as Fp.
+  assert (Hnsp : sat_is_sat (sat_pop sa2) = false).
+  { rewrite (is_sat_stack s (sat_pop sa2) Hstp); [exact Hns|]. rewrite (f_cl _ Fp), (f_cl _ F). reflexivity. }
+  assert (Hunp : pm_get (model (sat_pop sa2)) v = None) by (rewrite Etp; exact Hun).
+  assert (Hqp : inresb cls (model (sat_pop sa2)) v = false) by (rewrite Etp; exact Hq).
+  unfold branch_g in Eb2. destruct (sat_decide false (sat_pop sa2) (v, false)) as [sb rb] eqn:Edb.
+  destruct (quiet_decide _ ds v false sb rb Hrp Hv Hunp Hqp Hnsp Edb) as [-> [Hmb [Hhb [Hnsb Hnvb]]]].
+  pose proof (decide_step _ ds v false sb DUnknown Hrp Hv Hunp Edb) as [_ [_ [_ [_ [Hnab _]]]]].
+  rewrite Huc in Ereca, Eb2.
+  destruct (replay order f (S level) sa c fl sub sa2 ca fla Ereca Hnsa sb fla) as [flb' Erb].
+  - rewrite Hnvb, (f_nv _ Fp), Hnva, (f_nv _ F). reflexivity.
+  - exact Hnsb.
+  - rewrite Hhb, Hha. unfold sat_cur_hash. rewrite Etp. reflexivity.
+  - intros l Hl1 Hl2. rewrite Hnva, (f_nv _ F) in Hl2. unfold sat_is_set. rewrite Hmb, Hma, Etp.
+    assert (Hne : nth l order 0 <> v).
+    { intros E. rewrite Ev in E. apply Hinj in E; [lia|exact Hl2|exact Hlv]. }
+    unfold pm_is_set. rewrite !pm_get_set_other by congruence. reflexivity.
+  - rewrite Erb in Eb2. inversion Eb2; subst.
+    rewrite Hnab, Hmb, Etp, implied_set_nil by exact Hun. rewrite conjoin_nil. reflexivity.
+Qed.
+
+Lemma topdown_res (Huc : use_cache = true) : forall fuel level,
+  rec_res level (fun s c fl => topdown_hg order use_cache fuel s level c fl).
+Proof.
+  induction fuel as [|f IH]; intros level s c fl ds res Hr Hc Hcr Hlev H; [discriminate|].
+  cbn [topdown_hg] in H. pose proof (reach_facts s ds Hr) as F.
+  destruct (Nat.leb (s_nvars s) level || sat_is_sat s) eqn:Ebase.
+  - inversion H; subst res. unfold rconcl. split; [reflexivity|split; [exact Hcr|intros u []]].
+  - apply orb_false_iff in Ebase. destruct Ebase as [Elev Ens]. apply Nat.leb_gt in Elev.
+    rewrite (f_nv s F) in Elev.
+    set (v := var_at_level order level) in *.
+    destruct (sat_is_set s v) eqn:Eset.
+    + apply (IH (S level) s c fl ds res Hr Hc Hcr); [|exact H].
+      intros l Hl. destruct (Nat.eq_dec l level) as [->|Hne]; [exact Eset|apply Hlev; lia].
+    + assert (Hun : pm_get (model s) v = None) by (apply pm_is_set_get; exact Eset).
+      assert (Hv : v < nvars) by (apply Hinrange; exact Elev).
+      assert (Eif : (if use_cache then cache_get c (sat_cur_hash s) else None) = cache_get c (sat_cur_hash s))
+        by (rewrite Huc; reflexivity).
+      rewrite Eif in H. clear Eif.
+      destruct (cache_get c (sat_cur_hash s)) as [d|] eqn:Eget.
+      * inversion H; subst res. apply cache_get_in in Eget.
+        pose proof Hcr as Hcr'. unfold cache_res in Hcr'. rewrite Forall_forall in Hcr'.
+        destruct (Hcr' _ Eget) as [se [dse [Hrse [Hh Hse]]]]. cbn [fst snd] in *.
+        assert (Hsup : sup_res (model s) d).
+        { eapply sup_res_transfer; [|exact Hse].
+          destruct (flag_inv_reach _ _ _ _ _ _ Hnew reach_s0) as [_ Hcl0]. rewrite <- Hcl0.
+          eapply hash_residual; eauto. }
+        assert (Hfresh : fresh_hit s d = true).
+        { unfold fresh_hit. apply forallb_forall. intros u Hu. destruct (Hsup u Hu) as [_ B].
+          apply negb_true_iff. apply pm_is_set_get. exact B. }
+        unfold rconcl. rewrite Hfresh, andb_true_r. split; [reflexivity|split; [exact Hcr|exact Hsup]].
+      * destruct (branch_g (fun s' c' fl' => topdown_hg order use_cache f s' (S level) c' fl') s c fl v true)
+          as [[[[hi s1] c1] fl1]|] eqn:Eb1; [|discriminate].
+        destruct (branch_g (fun s' c' fl' => topdown_hg order use_cache f s' (S level) c' fl') s1 c1 fl1 v false)
+          as [[[[lo s2] c2] fl2]|] eqn:Eb2; [|discriminate].
+        inversion H; subst res. clear H.
+        pose proof (branch_ok level _ (topdown_hg_ok f (S level)) s c fl ds v true _ Hr Hc Hlev eq_refl Hv Hun Eb1) as B1.
+        unfold bconcl in B1. destruct B1 as [Hr1 [Hst1 [Hc1 _]]].
+        pose proof (branch_res level _ (topdown_hg_ok f (S level)) (IH (S level)) s c fl ds v true _
+                      Hr Hc Hcr Hlev eq_refl Hv Hun Eb1) as R1.
+        unfold rconcl in R1. destruct R1 as [Hfl1 [Hcr1 Hsup1]].
+        pose proof (top_state_stack _ _ Hst1) as Et1.
+        assert (Hlev1 : levels_set (model s1) level) by (rewrite Et1; exact Hlev).
+        assert (Hun1 : pm_get (model s1) v = None) by (rewrite Et1; exact Hun).
+        pose proof (branch_res level _ (topdown_hg_ok f (S level)) (IH (S level)) s1 c1 fl1 ds v false _
+                      Hr1 Hc1 Hcr1 Hlev1 eq_refl Hv Hun1 Eb2) as R2.
+        unfold rconcl in R2. rewrite Et1 in R2. destruct R2 as [Hfl2 [Hcr2 Hsup2]].
+        assert (Hsupr : sup_res (model s) (decision_node (N.of_nat v) lo hi)).
+        { destruct (inresb cls (model s) v) eqn:Eq.
+          - intros u Hu. apply support_decision_node in Hu. destruct Hu as [->|[Hu|Hu]].
+            + rewrite Nat2N.id. split; [exact Eq|exact Hun].
+            + apply Hsup2. exact Hu.
+            + apply Hsup1. exact Hu.
+          - assert (E : hi = lo)
+              by (eapply (quiet_arms Huc f level s c fl ds v); eauto).
+            unfold decision_node. rewrite (proj2 (bdd_eqb_eq hi lo) E). exact Hsup1. }
+        unfold rconcl. split; [congruence|split; [|exact Hsupr]].
+        rewrite Huc. unfold cache_insert. constructor; [|exact Hcr2].
+        exists s, ds. cbn [fst snd]. auto.
+Qed.
+
+(* with the cache the ghost flag is never cleared *)
+Lemma cached_flag_true (Huc : use_cache = true) r s' c' fl' :
+  topdown_hg order use_cache (S nvars) s0 0 [] true = Some (r, s', c', fl') -> fl' = true.
+Proof.
+  intros E. assert (Hc0 : cache_ok true []) by constructor.
+  assert (Hl0 : levels_set (model s0) 0) by (intros l Hl; lia).
+  pose proof (topdown_res Huc (S nvars) 0 s0 [] true [] _ reach_s0 Hc0 (Forall_nil _) Hl0 E) as H.
+  unfold rconcl in H. tauto.
+Qed.
+
 (* ---------- the root ---------- *)
 Lemma lit_true_new n l : lit_true (pm_new n) l = false.
 Proof.
@@ -895,7 +1342,7 @@ Theorem compile_g_correct :
     topdown_hg order use_cache (S nvars) s0 0 [] true = Some (r, s', c', fl') /\
     (forall x, den (root_result r s') x = cnf_holds (ax x) cls) /\
     (root_result r s' = BF <-> forall a, cnf_holds a cls = false) /\
-    (fl' = true -> free_bdd (root_result r s')).
+    (fl' = true -> free_bdd (root_result r s')) /\ (use_cache = true -> fl' = true).
 Proof.
   assert (Hc0 : cache_ok true []) by constructor.
   assert (Hl0 : levels_set (model s0) 0) by (intros l Hl; lia).
@@ -922,7 +1369,7 @@ Proof.
       { apply forallb_forall. intros l Hl. apply Hin in Hl. unfold lit_evalN, nvar.
         change (x (N.of_nat (lvar l))) with (ax x (lvar l)). rewrite (He _ _ Hl). apply eqb_reflx. }
       congruence. }
-  split; [exact Hden|split].
+  split; [exact Hden|split; [|split]].
   - split.
     + intros Hbf a. rewrite <- (cnf_holds_ext (ax (fun n => a (N.to_nat n))) a cls).
       * rewrite <- Hden, Hbf. reflexivity.
@@ -931,6 +1378,7 @@ Proof.
   - intros Hfl. destruct (Hfree Hfl) as [Hsup Hfr].
     apply free_conjoin_implied; [exact Hfr|apply nodup_nvar, nodup_pm_difference|].
     intros l Hl Hs. apply Hin in Hl. apply Hsup in Hs. unfold nvar in Hs. rewrite Nat2N.id in Hs. congruence.
+  - intros Huc. eapply cached_flag_true; eauto.
 Qed.
 End TD.
 
@@ -982,16 +1430,19 @@ Definition hash_ok (s0 : solver) : Prop := forall s1 ds1 s2 ds2,
 
 Lemma perm_order order nvars : Permutation order (seq 0 nvars) ->
   (forall v, v < nvars -> exists l, l < nvars /\ nth l order 0 = v) /\
-  (forall l, l < nvars -> nth l order 0 < nvars).
+  (forall l, l < nvars -> nth l order 0 < nvars) /\
+  (forall l l', l < nvars -> l' < nvars -> nth l order 0 = nth l' order 0 -> l = l').
 Proof.
   intros P. assert (Hlen : length order = nvars) by (rewrite (Permutation_length P); apply seq_length).
-  split.
+  split; [|split].
   - intros v Hv. assert (Hin : In v order).
     { apply (Permutation_in _ (Permutation_sym P)). apply in_seq. lia. }
     apply In_nth with (d := 0) in Hin. destruct Hin as [l [Hl E]]. exists l. split; [lia|exact E].
   - intros l Hl. assert (Hin : In (nth l order 0) (seq 0 nvars)).
     { apply (Permutation_in _ P). apply nth_In. lia. }
     apply in_seq in Hin. lia.
+  - assert (Hnd : NoDup order) by (apply (Permutation_NoDup (Permutation_sym P)); apply seq_NoDup).
+    intros l l' Hl Hl'. apply (proj1 (NoDup_nth order 0) Hnd); lia.
 Qed.
 
 Definition unsat (cls : list clause) : Prop := forall a : nat -> bool, cnf_holds a cls = false.
@@ -1001,18 +1452,18 @@ Theorem compile_g_spec order uc cls nvars :
   (uc = true -> forall s0, sat_new false cls nvars = NewSome s0 -> hash_ok s0) ->
   exists r fl, compile_g order uc cls nvars = Some (r, fl) /\
     (forall x, den r x = cnf_holds (ax x) cls) /\ (r = BF <-> unsat cls) /\
-    (fl = true -> free_bdd r) /\ (uc = false -> fl = true).
+    (fl = true -> free_bdd r) /\ fl = true.
 Proof.
-  intros Hrange Hadj P Hh. destruct (perm_order order nvars P) as [Hcover Hinr].
+  intros Hrange Hadj P Hh. destruct (perm_order order nvars P) as [Hcover [Hinr Hinj]].
   unfold compile_g. destruct (sat_new false cls nvars) as [| |s0] eqn:En.
   - exfalso. exact (sat_new_no_out_of_fuel false nvars cls Hrange En).
   - exists BF, true. pose proof (unsat_sound_new _ _ _ En) as Hu.
-    split; [reflexivity|split; [intros x; cbn [den]; symmetry; apply Hu|split; [|split; [intros _; exact I|auto]]]].
+    split; [reflexivity|split; [intros x; cbn [den]; symmetry; apply Hu|split; [|split; [intros _; exact I|reflexivity]]]].
     split; [intros _; exact Hu|reflexivity].
   - destruct (compile_g_correct cls nvars order s0 uc Hrange Hadj En Hcover Hinr
-                (fun E => Hh E s0 eq_refl)) as [r [s' [c' [fl' [E [Hden [Hbf Hfree]]]]]]].
+                (fun E => Hh E s0 eq_refl) Hinj) as [r [s' [c' [fl' [E [Hden [Hbf [Hfree Hflag]]]]]]]].
     rewrite E. exists (root_result r s'), fl'. split; [reflexivity|split; [exact Hden|split; [exact Hbf|split; [exact Hfree|]]]].
-    intros ->. eapply nocache_flag. exact E.
+    destruct uc; [apply Hflag; reflexivity|eapply nocache_flag; exact E].
 Qed.
 
 (* ---------- the whole pipeline raw clauses -> Cnf::new -> compile ---------- *)
@@ -1053,7 +1504,7 @@ Theorem compile_raw_g_spec order uc raw :
   (uc = true -> hash_guard raw) ->
   exists r fl, compile_raw_g order uc raw = Some (r, fl) /\
     (forall x, den r x = cnf_holds (ax x) raw) /\ (r = BF <-> unsat raw) /\
-    (fl = true -> free_bdd r) /\ (uc = false -> fl = true).
+    (fl = true -> free_bdd r) /\ fl = true.
 Proof.
   intros P Hg.
   destruct (compile_g_spec order uc (cnf_new raw) (cnf_num_vars (cnf_new raw))
@@ -1098,23 +1549,25 @@ Proof.
   exists r. rewrite compile_raw_g_erase, E. split; [reflexivity|split; [|split]].
   - rewrite Hbf. apply unsat_cnfN.
   - intros x. rewrite cnf_eval_cnfN. apply Hden.
-  - apply Hfree, Hfl. reflexivity.
+  - apply Hfree, Hfl.
 Qed.
 
-(* topdown_correct (with the component cache): under C09's guard (product of the literal primes
-   below 2^128, so that equal hashes mean equal residual formulas) the compiler as coded never
-   runs out of fuel, returns the false constant exactly for unsatisfiable CNFs and otherwise a
-   diagram denoting the CNF. *)
+(* topdown_correct (with the component cache, as coded): under C09's guard (product of the
+   literal primes below 2^128, so that equal hashes mean equal residual formulas) the compiler
+   never runs out of fuel, returns the false constant exactly for unsatisfiable CNFs and
+   otherwise a diagram denoting the CNF in which no path decides a variable twice.  Freeness uses
+   topdown_res: results test residual variables only, so the ghost flag is never cleared. *)
 Theorem topdown_correct order raw :
   Permutation order (seq 0 (cnf_num_vars (cnf_new raw))) -> hash_guard raw ->
   exists r, compile_raw false order false true raw = Some r /\
     (r = BF <-> forall x, Compile.cnf_eval (cnfN raw) x = false) /\
-    (forall x, den r x = Compile.cnf_eval (cnfN raw) x).
+    (forall x, den r x = Compile.cnf_eval (cnfN raw) x) /\ free_bdd r.
 Proof.
-  intros P Hg. destruct (compile_raw_g_spec order true raw P (fun _ => Hg)) as [r [fl [E [Hden [Hbf _]]]]].
-  exists r. rewrite compile_raw_g_erase, E. split; [reflexivity|split].
+  intros P Hg. destruct (compile_raw_g_spec order true raw P (fun _ => Hg)) as [r [fl [E [Hden [Hbf [Hfree Hfl]]]]]].
+  exists r. rewrite compile_raw_g_erase, E. split; [reflexivity|split; [|split]].
   - rewrite Hbf. apply unsat_cnfN.
   - intros x. rewrite cnf_eval_cnfN. apply Hden.
+  - apply Hfree, Hfl.
 Qed.
 
 (* the same with the cache-soundness assumption as an explicit hypothesis instead of the guard *)
@@ -1123,34 +1576,23 @@ Theorem topdown_correct_hyp order cls nvars :
   (forall s0, sat_new false cls nvars = NewSome s0 -> hash_ok s0) ->
   exists r, compile_cnf_topdown false order false true cls nvars = Some r /\
     (r = BF <-> forall x, Compile.cnf_eval (cnfN cls) x = false) /\
-    (forall x, den r x = Compile.cnf_eval (cnfN cls) x).
+    (forall x, den r x = Compile.cnf_eval (cnfN cls) x) /\ free_bdd r.
 Proof.
-  intros Hr Ha P Hh. destruct (compile_g_spec order true cls nvars Hr Ha P (fun _ => Hh)) as [r [fl [E [Hden [Hbf _]]]]].
-  exists r. rewrite compile_g_erase, E. split; [reflexivity|split].
+  intros Hr Ha P Hh. destruct (compile_g_spec order true cls nvars Hr Ha P (fun _ => Hh)) as [r [fl [E [Hden [Hbf [Hfree Hfl]]]]]].
+  exists r. rewrite compile_g_erase, E. split; [reflexivity|split; [|split]].
   - rewrite Hbf. apply unsat_cnfN.
   - intros x. rewrite cnf_eval_cnfN. apply Hden.
+  - apply Hfree, Hfl.
 Qed.
 
-(* freeness with the cache: proved for the runs in which no cache hit returned a diagram testing a
-   variable that is set at the time of the hit (ghost flag of compile_raw_g, erased by
-   compile_raw_g_erase).  That real runs never clear the flag is NOT proved (it needs "a decision
-   on a variable outside the residual formula yields the same pointer on both arms", a
-   determinism argument about the propagator); the extracted driver evaluates the flag on every
-   correspondence case. *)
-Definition topdown_full_statement : Prop :=
-  forall order raw,
-    Permutation order (seq 0 (cnf_num_vars (cnf_new raw))) -> hash_guard raw ->
-    exists r, compile_raw false order false true raw = Some r /\
-      (r = BF <-> forall x, Compile.cnf_eval (cnfN raw) x = false) /\
-      (forall x, den r x = Compile.cnf_eval (cnfN raw) x) /\ free_bdd r.
-
-Theorem topdown_free_partial order raw :
-  Permutation order (seq 0 (cnf_num_vars (cnf_new raw))) -> hash_guard raw ->
-  exists r fl, compile_raw_g order true raw = Some (r, fl) /\
-    compile_raw false order false true raw = Some r /\ (fl = true -> free_bdd r).
+(* the ghost flag of compile_raw_g is never cleared: no cache hit ever returns a diagram that
+   tests a variable assigned at the time of the hit *)
+Theorem no_stale_hit order uc raw :
+  Permutation order (seq 0 (cnf_num_vars (cnf_new raw))) -> (uc = true -> hash_guard raw) ->
+  exists r, compile_raw_g order uc raw = Some (r, true).
 Proof.
-  intros P Hg. destruct (compile_raw_g_spec order true raw P (fun _ => Hg)) as [r [fl [E [_ [_ [Hfree _]]]]]].
-  exists r, fl. rewrite compile_raw_g_erase, E. auto.
+  intros P Hg. destruct (compile_raw_g_spec order uc raw P Hg) as [r [fl [E [_ [_ [_ Hfl]]]]]].
+  exists r. rewrite E, Hfl. reflexivity.
 Qed.
 
 (* ---------- witnesses ---------- *)
